@@ -18,18 +18,39 @@ BASE = 840.0          # lcm(1..8): sums / member counts / group counts up to 8 d
 
 
 # ----------------------------------------------------------------------------- generators
-def gen_val(rng, exact_div=True):
+# value classes -- all exact in binary64 so that the comparison with the rational model stays exact.
+# "divisible" classes are multiples of 840/2^j: sums AND divisions by any member / group count <= 8 are exact,
+# so they go with every mode (norm, divide).  The other classes go with the modes that only add.
+DIVISIBLE = ["int840", "frac840", "frac840", "large840", "mixed840"]
+ADD_ONLY = ["smallint", "dyadic", "dyadic", "large"]
+
+
+def gen_val(rng, cls="int840"):
+    if cls == "mixed840":
+        cls = rng.choice(["int840", "frac840"])
     k = rng.randint(1, 12)
-    j = rng.choice([0, 0, 0, 1, 2, 3])
-    v = (BASE if exact_div else 1.0) * k / float(2 ** j)
-    if rng.random() < 0.12:
+    if cls == "int840":                                  # whole numbers: 840*k/2^j, j <= 3
+        v = BASE * k / float(2 ** rng.choice([0, 0, 0, 1, 2, 3]))
+    elif cls == "frac840":                               # NON-integers, some in (0,1): 840*k/2^j, 4 <= j <= 12
+        v = BASE * rng.choice([1, 1, 3, 5, 7, 9, 11]) / float(2 ** rng.randint(4, 12))
+    elif cls == "large840":                              # large, still divisible: 840*k*2^e
+        v = BASE * k * float(2 ** rng.randint(20, 30))
+    elif cls == "smallint":
+        v = float(rng.randint(1, 9))
+    elif cls == "dyadic":                                # 0.5, 1.5, 0.125, 3.75, ... incl. values in (0,1)
+        v = rng.choice([1, 1, 3, 5, 7, 13, 31, 63]) / float(2 ** rng.randint(1, 6))
+    elif cls == "large":
+        v = float(rng.choice([2 ** 40, 3 * 2 ** 38, 123456789 * 2 ** 10, 2 ** 45 + 2 ** 20]))
+    else:
+        raise ValueError(cls)
+    if rng.random() < 0.15:
         v = -v
     return v
 
 
-def gen_grid(rng, n, m):
+def gen_grid(rng, n, m, cls="int840"):
     density = rng.choice([0.15, 0.4, 0.6, 0.85, 1.0])
-    g = [[gen_val(rng) if rng.random() < density else 0.0 for _ in range(m)] for _ in range(n)]
+    g = [[gen_val(rng, cls) if rng.random() < density else 0.0 for _ in range(m)] for _ in range(n)]
     if n > 1 and rng.random() < 0.25:
         g[rng.randrange(n)] = [0.0] * m
     if m > 1 and rng.random() < 0.25:
@@ -93,7 +114,8 @@ def gen_spec(rng, max_n, max_m):
     m = rng.randint(1, max_m)
     obs = awkward_ids(rng, core.gen_ids(rng, n, "O"))
     samp = awkward_ids(rng, core.gen_ids(rng, m, "S"))
-    return {"obs": obs, "samp": samp, "rows": gen_grid(rng, n, m),
+    cls = rng.choice(DIVISIBLE + ADD_ONLY)
+    return {"obs": obs, "samp": samp, "rows": gen_grid(rng, n, m, cls), "vclass": cls,
             "omd": gen_axis_md(rng, obs, rng.choice(["full", "full", "partial", "none", "sparse"])),
             "smd": gen_axis_md(rng, samp, rng.choice(["full", "full", "partial", "none", "sparse"])),
             "type": rng.choice(core.TYPES)}
@@ -510,6 +532,28 @@ def check(ctx, t, axis, op, pyf, tags, meta, nontrivial, rng=None, stress=True):
     replayable = dict(op, axis=axis, table=tin, out=out, meta=dict(meta, profile=prof))
     ctx.count("op=%s" % op["op"])
     ctx.count("outcome=%s" % ("error:" + out["error"] if "error" in out else "ok"))
+    kinds = set()
+    for row in tin["rows"]:
+        for x in row:
+            if "/" in x:
+                kinds.add("fraction")
+                fx = core.unfrac(x)
+                if -1 < fx < 1:
+                    kinds.add("in(-1,1)")
+                if fx < 0:
+                    kinds.add("negative-fraction")
+            elif len(x) > 12:
+                kinds.add("large")
+    if "error" not in out:
+        mode = {"partition": "partition", "otm": "otm-" + str(op.get("mode")),
+                "collapse": "collapse-norm=%s" % op.get("norm")}[op["op"]]
+        for k in kinds or {"integers-only"}:
+            ctx.count("values:%s:%s" % (mode, k))
+        if op["op"] == "collapse" and not op["norm"] and op["min_group_size"] <= 1 and "fraction" in kinds:
+            ctx.count("values:collapse.conserve evaluated on non-integer table")
+        if op["op"] == "otm" and op["mode"] == "add" and "fraction" in kinds and out.get("table", {}).get(
+                "samp" if axis == "sample" else "obs"):
+            ctx.count("values:otm.cell (add) evaluated on non-integer table with >= 1 bin")
     if prof:
         ctx.count("stress:profile=%s" % prof)
     if not r["model_holds"]:
@@ -599,7 +643,8 @@ def do_partition(ctx, rng, t, axis, tags, meta, wide=False):
 def do_collapse(ctx, rng, t, axis, tags, meta, wide=False):
     ids = [str(i) for i in t.ids(axis=axis)]
     md = axis_md(t, axis)
-    norm = rng.random() < 0.5 and not wide          # wide groups: member counts need not divide 840
+    div_ok = meta.get("vclass", "int840") in DIVISIBLE
+    norm = rng.random() < 0.5 and not wide and div_ok   # wide groups / add-only values: division not exact
     mgs = rng.choice([1, 1, 1, 2, 2, 3]) if not wide else rng.choice([1, 2, 3, 33, 64, 200])
     icm = rng.random() < 0.75
     if rng.random() < 0.2:
@@ -632,7 +677,8 @@ def do_collapse(ctx, rng, t, axis, tags, meta, wide=False):
 def do_otm(ctx, rng, t, axis, tags, meta):
     ids = [str(i) for i in t.ids(axis=axis)]
     md = axis_md(t, axis)
-    mode = rng.choice(["add", "divide"])
+    div_ok = meta.get("vclass", "int840") in DIVISIBLE
+    mode = rng.choice(["add", "divide"]) if div_ok else "add"
     strict = rng.random() < 0.25
     icm = rng.random() < 0.8
     key = rng.choice(["Path", "KEGG_Pathways"])
@@ -778,12 +824,14 @@ def wide_cases(ctx, rng, n):
         axis = rng.choice(["sample", "observation"])
         wide_axis = axis if k % 3 else ("observation" if axis == "sample" else "sample")
         spec = core.wide_spec(rng, axis=wide_axis, md=False)
-        spec["rows"] = [[BASE * v for v in r] for r in spec["rows"]]
+        cls = rng.choice(DIVISIBLE + ADD_ONLY)
+        spec["rows"] = [[(gen_val(rng, cls) if v else 0.0) for v in r] for r in spec["rows"]]
+        spec["vclass"] = cls
         spec["omd"] = gen_axis_md(rng, spec["obs"], "partial")
         spec["smd"] = gen_axis_md(rng, spec["samp"], "partial")
         route = rng.choice(core.ROUTES)
         t = core.build(spec, route, rng)
-        meta = {"spec": "wide", "route": route, "history": "none"}
+        meta = {"spec": "wide", "route": route, "history": "none", "vclass": cls}
         tags = ("wide", "route=" + route)
         ctx.count("wide:axis_worked_on_is_wide=%s" % (axis == wide_axis))
         c = k % 3
@@ -808,8 +856,9 @@ def one_random(ctx, rng, max_n, max_m):
         t, hist = t0, "none"
     if len(t.ids()) == 0 or len(t.ids(axis="observation")) == 0:
         t, hist = t0, "none"                      # domain: both axes non-empty
-    meta = {"spec": spec, "route": route, "history": hist}
-    tags = ("random", "route=" + route, "history=" + hist)
+    meta = {"spec": spec, "route": route, "history": hist, "vclass": spec["vclass"]}
+    tags = ("random", "route=" + route, "history=" + hist, "values=" + spec["vclass"])
+    ctx.count("values=%s" % spec["vclass"])
     ctx.count("route=%s" % route)
     ctx.count("history=%s" % hist)
     ctx.count("axis=%s" % axis)
@@ -823,7 +872,9 @@ def one_random(ctx, rng, max_n, max_m):
 
 
 def run(ctx):
-    ctx.rule = ("receiver = generated spec (1..N x 1..M, values ±840*k/2^j or 0, metadata kinds) built through a "
+    ctx.rule = ("receiver = generated spec (1..N x 1..M; one value class per table: 840-multiples that are whole, "
+                "non-integer 840*k/2^j incl. (0,1), large, or - for the adding modes - small ints, dyadic fractions "
+                "0.5/1.5/0.125.., 2^40-scale; negatives; zeros; metadata kinds) built through a "
                 "core.build route, optionally after a prior operation; operation drawn from partition / one-to-one "
                 "collapse / one-to-many collapse with random flags and a labeller from the named family (or a dict "
                 "in either form, or a scripted iterator); distinct = distinct (operation, axis, receiver content); "
@@ -833,7 +884,8 @@ def run(ctx):
     ctx.trusted = ["profile=raise / receiver-unchanged / aliasing / error-path expectations are evaluated in Python",
                    "labeller results per ID are computed by the harness from (id, metadata) and handed to Lean; "
                    "the labeller is assumed deterministic (one-to-many calls it twice per ID)",
-                   "values are multiples of 840/8 so that every sum and division is exact in binary64"]
+                   "every value class is exact in binary64 under the operations it is used with: classes divisible by "
+                   "840/2^j for norm/divide (any count <= 8), pure dyadic / small-int / large classes only with adding modes"]
     ctx.assumptions = ["start tables have at least one observation and one sample (C11 domain)",
                        "labels of a collapse are strings / None (they become IDs)"]
     early_unusual_calls()
